@@ -9,6 +9,7 @@ import (
 	"fmt"
 
 	pipeline "github.com/buildkite/go-pipeline"
+	"github.com/buildkite/go-pipeline/ordered"
 
 	"verifharness/core"
 	"verifharness/dump"
@@ -236,6 +237,25 @@ func runC14(c *ctx) error {
 				}
 				s2.Matrix.RemainingFields["zz_extra_matrix_key"] = 1
 				differ("matrix gains an unknown key", s2, repo, copyEnv(penv))
+			}
+			// member boundaries inside nested (order-preserving) mappings: a key carrying quote, colon and comma
+			// must not read as two members
+			{
+				sa, sb := ss.fresh(), ss.fresh()
+				if sa != nil && sb != nil && sa.Matrix != nil && sb.Matrix != nil {
+					for _, x := range []*pipeline.CommandStep{sa, sb} {
+						if x.Matrix.RemainingFields == nil {
+							x.Matrix.RemainingFields = map[string]any{}
+						}
+					}
+					sa.Matrix.RemainingFields["zz_nested"] = ordered.MapFromItems(ordered.TupleSA{Key: "x\":1,\"y", Value: 2})
+					sb.Matrix.RemainingFields["zz_nested"] = ordered.MapFromItems(ordered.TupleSA{Key: "x", Value: 1}, ordered.TupleSA{Key: "y", Value: 2})
+					c.res.OracleChecks++
+					if pa, pb := sign(sa, repo, copyEnv(penv)), sign(sb, repo, copyEnv(penv)); pa == pb && pa != "" {
+						c.res.Fail(core.OracleFailure{What: "a nested key containing a quote gives the same payload as two separate members", Input: desc, Got: pa})
+					}
+					c.res.Hist("differ.nested-key-injection")
+				}
 			}
 			if s2 := ss.fresh(); s2 != nil && s2.Matrix != nil && len(s2.Matrix.Setup) > 0 {
 				for _, d := range sortedKeysS(s2.Matrix.Setup) {
